@@ -20,6 +20,14 @@ RECV_NAMES = ("recv", "try_recv", "poll_recv", "blocking_recv", "poll")
 WRAP_VARIANTS = ("Ok", "Err", "Some", "Ready", "Continue", "Break")
 
 
+class _Seen(set):
+    """nodes on the walk (cycle guard) plus the verdicts of the nodes already finished"""
+
+    def __init__(self):
+        super().__init__()
+        self.done = {}
+
+
 class Flow:
     def __init__(self, facts, tr):
         self.facts = facts
@@ -86,13 +94,20 @@ class Flow:
     def passes(self, node, sources, depth=0, seen=None):
         """-> (reaches a source?, set of error-constructor names applied on the way)"""
         if seen is None:
-            seen = set()
+            seen = _Seen()
         node = peel(node)
         if node in sources:
             return True, set()
+        if node in seen.done:
+            return seen.done[node]          # reached again along another alternative (both arms of a match read the same value)
         if depth > 40 or node in seen:
             return False, set()
         seen.add(node)
+        r = self._passes(node, sources, depth, seen)
+        seen.done[node] = r
+        return r
+
+    def _passes(self, node, sources, depth, seen):
         k = node[0]
         if k == "phi":
             ok, ctors = False, set()
